@@ -191,3 +191,19 @@ def templates(cfg):
 
     T("self_join.of_join", self_join_of_join, sources=TU, nmax=2)
     return out
+
+
+def rejections():
+    """re-rooting a table that is grouped by a column it no longer shows: hidden columns do not survive collect() /
+    transfer_col_references(), so the grouping cannot be carried over - ValueError when built, not an internal KeyError (F65)"""
+    S = [("t", {"a": INT, "b": INT, "g": INT})]
+    R = []
+    R.append(("collect_hidden_key", S, lambda p, t: p.collect(t >> p.group_by(t.g) >> p.select(t.a, t.b)), "ValueError"))
+    R.append(("collect_overwritten_key", S, lambda p, t: p.collect(t >> p.group_by(t.g) >> p.mutate(g=t.a + 1)), "ValueError"))
+
+    def transfer_hidden_key(p, t):
+        d = t >> p.group_by(t.g) >> p.select(t.a, t.b)
+        return p.transfer_col_references(d >> p.alias("m"), d)
+
+    R.append(("transfer_hidden_key", S, transfer_hidden_key, "ValueError"))
+    return R
